@@ -87,6 +87,7 @@ inductive Scaling where
   | averaged
   | integrated
   | unscaled (tol : Rat)
+  | other            -- any other value of `scaling`: `match_1d` has no `else` (weights stay lengths), `match_2d` raises
 
 /-- the three `scaling` branches of `match_1d`, on the coo triples -/
 def scaleTriples (mode : Scaling) (c1 c2 : List Cell) (T : List Triple) : List Triple :=
@@ -94,6 +95,7 @@ def scaleTriples (mode : Scaling) (c1 c2 : List Cell) (T : List Triple) : List T
   | .averaged => T.map (fun t => (t.1, t.2.1, t.2.2 / cellVol (c1.getD t.1 (0, 0))))
   | .integrated => T.map (fun t => (t.1, t.2.1, t.2.2 / cellVol (c2.getD t.2.1 (0, 0))))
   | .unscaled tol => (T.filter (fun t => decide (tol < t.2.2))).map (fun t => (t.1, t.2.1, 1))
+  | .other => T
 
 /-- entry `(i, j)` of `sps.coo_matrix((w, (rows, cols))).tocsr()`: duplicates are summed -/
 def entry : List Triple → Nat → Nat → Rat
@@ -196,6 +198,7 @@ def scaleVol (mode : Scaling) (v1 v2 : List Rat) (T : List Triple) : List Triple
   | .averaged => T.map (fun t => (t.1, t.2.1, t.2.2 / v1.getD t.1 0))
   | .integrated => T.map (fun t => (t.1, t.2.1, t.2.2 / v2.getD t.2.1 0))
   | .unscaled tol => (T.filter (fun t => decide (tol < t.2.2))).map (fun t => (t.1, t.2.1, 1))
+  | .other => T   -- not reached: `match2dEntry` raises before
 
 /-- `match_2d(new_g, old_g, tol, scaling).toarray()` for planar grids given by their triangles -/
 def match2dFrom (mode : Scaling) (ps qs : List Poly) (T : List Triple) : List (List Rat) :=
@@ -203,6 +206,39 @@ def match2dFrom (mode : Scaling) (ps qs : List Poly) (T : List Triple) : List (L
 
 def match2d (mode : Scaling) (ps qs : List Poly) : List (List Rat) :=
   match2dFrom mode ps qs (triTess ps qs)
+
+/-- `match_2d` as called: the checks of the code in their order (`None` = `ValueError`):
+    new grid simplex, old grid simplex, common plane; the unknown scaling is only detected after the
+    overlaps have been computed -/
+def match2dEntry (simplexNew simplexOld coplanar : Bool) (mode : Scaling) (ps qs : List Poly) :
+    Option (List (List Rat)) :=
+  if !simplexNew then none
+  else if !simplexOld then none
+  else if !coplanar then none
+  else match mode with
+    | .other => none
+    | m => some (match2d m ps qs)
+
+/-! ### decidable input conditions (evaluated by the driver on every case) -/
+
+/-- all hypotheses of the 1-D theorems -/
+def hyp1d (ptol : Rat) (a b : List Rat) : Bool :=
+  gapInc ptol a && gapInc ptol b && sepNodes ptol a b && decide (a.head? = b.head?) &&
+  decide (a.getLast? = b.getLast?)
+
+/-- 2-D tessellation condition on the rows: the overlaps reported for every cell of `ps` sum to its
+    positive area -/
+def rowsOkFrom (ps : List Poly) (T : List Triple) : Bool :=
+  (List.range ps.length).all (fun i =>
+    decide (rowSum T i = polyArea (ps.getD i [])) && decide (0 < polyArea (ps.getD i [])))
+
+def rowsOk (ps qs : List Poly) : Bool := rowsOkFrom ps (triTess ps qs)
+
+def colsOkFrom (qs : List Poly) (T : List Triple) : Bool :=
+  (List.range qs.length).all (fun j =>
+    decide (colSum T j = polyArea (qs.getD j [])) && decide (0 < polyArea (qs.getD j [])))
+
+def colsOk (ps qs : List Poly) : Bool := colsOkFrom qs (triTess ps qs)
 
 /-! ### vocabulary of the 2-D specification -/
 
